@@ -15,10 +15,17 @@ package lnwallet
 //   R <node> => ok lwr=<0|1> diff=<h|-> ...    restart (+ canonical dump)
 //   Y <node> nl=<h> rt=<h> sec=<k|none|bad> pt=<k|bad>   ChanSyncMsg
 //   P <node> dlp=<0|1> pend=<0|1> => ok msgs=<tok,..> q=..   ProcessChanSyncMsg (+ dump)
+//   W <dir> <kind> <fields as built> => <fields as decoded | err:..>   every message that is exchanged
+//       (updates, commitment_signed, revoke_and_ack; original and retransmitted) travels through
+//       lnwire.WriteMessage -> bytes -> lnwire.ReadMessage; the receiver is handed the decoded message
+//   YW <node> nl=.. rt=.. sec=.. pt=.. nonce=.. nonces=.. dyn=..   channel_reestablish as decoded by the peer
+//       (the Y line shows it as built by ChanSyncMsg); ProcessChanSyncMsg gets the decoded message
 
 import (
 	"bufio"
 	"bytes"
+	"crypto/sha256"
+	"encoding/hex"
 	"errors"
 	"fmt"
 	"math/rand"
@@ -29,12 +36,212 @@ import (
 	"sync"
 	"testing"
 
+	"github.com/btcsuite/btcd/btcec/v2"
 	"github.com/lightningnetwork/lnd/chanstate"
 	"github.com/lightningnetwork/lnd/input"
 	"github.com/lightningnetwork/lnd/lnwallet/chainfee"
 	"github.com/lightningnetwork/lnd/lnwire"
 	"github.com/lightningnetwork/lnd/shachain"
 )
+
+// ---------------------------------------------------------------------------
+// the wire: every message the two channels exchange is serialised with the
+// real lnwire.WriteMessage and parsed again with lnwire.ReadMessage, as on a
+// real connection
+// ---------------------------------------------------------------------------
+
+func c03WireRT(m lnwire.Message) (out lnwire.Message, res string) {
+	res = "ok"
+	defer c01Recover(&res)
+	var b bytes.Buffer
+	if _, err := lnwire.WriteMessage(&b, m, 0); err != nil {
+		return nil, "err:encode"
+	}
+	raw := b.Bytes()
+	rd := bytes.NewReader(raw)
+	out, err := lnwire.ReadMessage(rd, 0)
+	if err != nil {
+		return nil, "err:decode"
+	}
+	if rd.Len() != 0 {
+		return nil, "err:trailing"
+	}
+	return out, "ok"
+}
+
+func c03H(b ...[]byte) string {
+	h := sha256.New()
+	for _, x := range b {
+		h.Write(x)
+	}
+	return hex.EncodeToString(h.Sum(nil)[:6])
+}
+
+func c03NonceTok(n lnwire.OptMusig2NonceTLV) string {
+	tok := "-"
+	n.WhenSomeV(func(v lnwire.Musig2Nonce) { tok = c03H(v[:]) })
+	return tok
+}
+
+func c03NoncesTok(n lnwire.OptLocalNonces) string {
+	tok := "-"
+	n.WhenSome(func(d lnwire.LocalNoncesData) {
+		keys := make([]string, 0, len(d.NoncesMap))
+		for k, v := range d.NoncesMap {
+			keys = append(keys, c03H(k[:], v[:]))
+		}
+		sort.Strings(keys)
+		tok = strconv.Itoa(len(keys)) + "/" + strings.Join(keys, "/")
+	})
+	return tok
+}
+
+// c03Canon renders the fields of a message that the receiver acts upon,
+// straight from the struct (not via the encoder under test).
+func c03Canon(m lnwire.Message) string {
+	switch v := m.(type) {
+	case *lnwire.UpdateAddHTLC:
+		bp := "-"
+		v.BlindingPoint.WhenSomeV(func(k *btcec.PublicKey) {
+			if k != nil {
+				bp = c03H(k.SerializeCompressed())
+			}
+		})
+		return fmt.Sprintf("add:%s:%d:%d:%s:%d:%s:%s:%d", c03H(v.ChanID[:]), v.ID,
+			uint64(v.Amount), c03H(v.PaymentHash[:]), v.Expiry, c03H(v.OnionBlob[:]),
+			bp, len(v.CustomRecords))
+	case *lnwire.UpdateFulfillHTLC:
+		return fmt.Sprintf("settle:%s:%d:%s:%d", c03H(v.ChanID[:]), v.ID,
+			c03H(v.PaymentPreimage[:]), len(v.CustomRecords))
+	case *lnwire.UpdateFailHTLC:
+		return fmt.Sprintf("fail:%s:%d:%d:%s", c03H(v.ChanID[:]), v.ID, len(v.Reason),
+			c03H(v.Reason))
+	case *lnwire.UpdateFee:
+		return fmt.Sprintf("fee:%s:%d", c03H(v.ChanID[:]), v.FeePerKw)
+	case *lnwire.CommitSig:
+		var hs [][]byte
+		for i := range v.HtlcSigs {
+			hs = append(hs, v.HtlcSigs[i].RawBytes())
+		}
+		ps := "-"
+		v.PartialSig.WhenSomeV(func(p lnwire.PartialSigWithNonce) {
+			sb := p.Sig.Bytes()
+			ps = c03H(sb[:], p.Nonce[:])
+		})
+		return fmt.Sprintf("sig:%s:%s:%d:%s:%s:%d", c03H(v.ChanID[:]),
+			c03H(v.CommitSig.RawBytes()), len(v.HtlcSigs), c03H(hs...), ps,
+			len(v.CustomRecords))
+	case *lnwire.RevokeAndAck:
+		nk := "nil"
+		if v.NextRevocationKey != nil {
+			nk = c03H(v.NextRevocationKey.SerializeCompressed())
+		}
+		return fmt.Sprintf("rev:%s:%s:%s:%s:%s", c03H(v.ChanID[:]), c03H(v.Revocation[:]),
+			nk, c03NonceTok(v.LocalNonce), c03NoncesTok(v.LocalNonces))
+	}
+	return fmt.Sprintf("unknown:%T", m)
+}
+
+// markers: a queue entry that has already travelled over the wire carries one
+// of these in a field its kind does not use
+var (
+	c03WiredRev = &lnwire.RevokeAndAck{}
+	c03WiredAdd = &lnwire.UpdateAddHTLC{}
+)
+
+func c03IsWired(m *c01Msg) bool {
+	if m.kind == "revoke" {
+		return m.add == c03WiredAdd
+	}
+	return m.rev == c03WiredRev
+}
+
+// wire sends every not yet transmitted entry of both queues through
+// WriteMessage / ReadMessage and replaces it by what the receiver decoded.
+func (c *c03State) wire(s *c01Sched) {
+	cid := lnwire.NewChanIDFromOutPoint(s.p.Ch[0].channelState.FundingOutpoint)
+	for d := 0; d < 2; d++ {
+		for i := range s.p.Q[d] {
+			m := &s.p.Q[d][i]
+			if c03IsWired(m) {
+				continue
+			}
+			var built lnwire.Message
+			switch m.kind {
+			case "add":
+				cp := *m.add
+				cp.ChanID = cid
+				built = &cp
+			case "settle":
+				built = &lnwire.UpdateFulfillHTLC{ChanID: cid, ID: m.idx,
+					PaymentPreimage: m.preimage}
+			case "fail":
+				built = &lnwire.UpdateFailHTLC{ChanID: cid, ID: m.idx,
+					Reason: []byte("c01")}
+			case "fee":
+				built = &lnwire.UpdateFee{ChanID: cid, FeePerKw: uint32(m.fee)}
+			case "commitsig":
+				built = &lnwire.CommitSig{ChanID: cid, CommitSig: m.sigs.CommitSig,
+					HtlcSigs: m.sigs.HtlcSigs, PartialSig: m.sigs.PartialSig}
+			case "revoke":
+				cp := *m.rev
+				cp.ChanID = cid
+				built = &cp
+			default:
+				continue
+			}
+			sent := c03Canon(built)
+			got, res := c03WireRT(built)
+			gotTok := res
+			if res == "ok" {
+				gotTok = c03Canon(got)
+				switch v := got.(type) {
+				case *lnwire.UpdateAddHTLC:
+					m.add = v
+				case *lnwire.UpdateFulfillHTLC:
+					m.idx, m.preimage = v.ID, v.PaymentPreimage
+				case *lnwire.UpdateFailHTLC:
+					m.idx = v.ID
+				case *lnwire.UpdateFee:
+					m.fee = chainfee.SatPerKWeight(v.FeePerKw)
+				case *lnwire.CommitSig:
+					m.sigs = &CommitSigs{CommitSig: v.CommitSig, HtlcSigs: v.HtlcSigs,
+						PartialSig: v.PartialSig}
+				case *lnwire.RevokeAndAck:
+					m.rev = v
+				}
+				if !strings.HasPrefix(gotTok, strings.SplitN(sent, ":", 2)[0]+":") {
+					gotTok = "err:type:" + gotTok
+					res = "err:type"
+				}
+			}
+			if m.kind == "revoke" {
+				m.add = c03WiredAdd
+			} else {
+				m.rev = c03WiredRev
+			}
+			dir := "AB"
+			if d == 1 {
+				dir = "BA"
+			}
+			s.emit(fmt.Sprintf("W %s %s %s => %s\n", dir, m.kind, sent, gotTok))
+			s.stats["wire_"+m.kind]++
+			if res != "ok" {
+				// the receiving peer cannot parse the message: the
+				// connection is torn down
+				s.stats["wire_failed"]++
+				s.dead = true
+			}
+		}
+	}
+}
+
+// act = a local action followed by its message going out on the wire.
+func (c *c03State) act(s *c01Sched, x int, a c01Act) string {
+	res := s.runAct(x, a)
+	c.wire(s)
+	return res
+}
 
 // ---------------------------------------------------------------------------
 // reload / sync primitives
@@ -135,6 +342,7 @@ func c03SyncErrClass(err error) string {
 
 type c03State struct {
 	lastSig [2]*CommitSigs // last commitment_signed produced by each node
+	taproot bool           // nonces travel in the TLV part of channel_reestablish: no legacy encoding
 }
 
 // c03Convert turns the messages returned by ProcessChanSyncMsg into queue
@@ -257,29 +465,68 @@ func (c *c03State) reloadBoth(s *c01Sched) bool {
 	return true
 }
 
+// reestFields renders a channel_reestablish: heights, the secret / commit
+// point located in the real shachain producers, the taproot nonces.
+func c03ReestFields(s *c01Sched, x int, m *lnwire.ChannelReestablish) string {
+	ch := s.p.Ch[x]
+	limit := ch.channelState.LocalCommitment.CommitHeight +
+		ch.channelState.RemoteCommitment.CommitHeight + 4
+	sec := c03SecretIndex(s.p.Ch[1-x].channelState.RevocationProducer,
+		m.LastRemoteCommitSecret, limit)
+	pt := c03PointIndex(ch.channelState.RevocationProducer, m, limit)
+	dyn := "-"
+	m.DynHeight.WhenSome(func(h lnwire.DynHeight) { dyn = strconv.FormatUint(uint64(h), 10) })
+	return fmt.Sprintf("nl=%d rt=%d sec=%s pt=%s nonce=%s nonces=%s dyn=%s",
+		m.NextLocalCommitHeight, m.RemoteCommitTailHeight, sec, pt,
+		c03NonceTok(m.LocalNonce), c03NoncesTok(m.LocalNonces), dyn)
+}
+
+// syncMsgs builds both channel_reestablish messages with the real ChanSyncMsg
+// and sends each through the wire; what is returned (and later processed) is
+// what the peer decoded.
 func (c *c03State) syncMsgs(s *c01Sched, dlp [2]bool) ([2]*lnwire.ChannelReestablish, bool) {
 	var msgs [2]*lnwire.ChannelReestablish
+	if c.taproot {
+		// the musig2 nonces live in the TLV stream behind the
+		// data-loss-protect fields: there is no taproot peer without them
+		dlp = [2]bool{true, true}
+	}
 	for x := 0; x < 2; x++ {
 		ch := s.p.Ch[x]
+		name := string(rune('A' + x))
 		m, err := ch.channelState.ChanSyncMsg()
 		if err != nil {
-			s.emit(fmt.Sprintf("Y %s => %s\n", string(rune('A'+x)), c01ErrClass(err)))
+			s.emit(fmt.Sprintf("Y %s => %s\n", name, c01ErrClass(err)))
 			s.dead = true
 			return msgs, false
 		}
-		limit := ch.channelState.LocalCommitment.CommitHeight +
-			ch.channelState.RemoteCommitment.CommitHeight + 4
-		sec := c03SecretIndex(s.p.Ch[1-x].channelState.RevocationProducer,
-			m.LastRemoteCommitSecret, limit)
-		pt := c03PointIndex(ch.channelState.RevocationProducer, m, limit)
+		built := c03ReestFields(s, x, m)
 		if !dlp[x] {
-			// a peer without option_data_loss_protect
+			// a peer without option_data_loss_protect: the message ends
+			// after the two heights
 			m.LocalUnrevokedCommitPoint = nil
-			pt = "absent"
 		}
-		s.emit(fmt.Sprintf("Y %s dlp=%d nl=%d rt=%d sec=%s pt=%s\n", string(rune('A'+x)),
-			c03b2i(dlp[x]), m.NextLocalCommitHeight, m.RemoteCommitTailHeight, sec, pt))
-		msgs[x] = m
+		s.emit(fmt.Sprintf("Y %s dlp=%d %s\n", name, c03b2i(dlp[x]), built))
+		got, res := c03WireRT(m)
+		dec, ok := got.(*lnwire.ChannelReestablish)
+		if res == "ok" && !ok {
+			res = "err:type"
+		}
+		if res != "ok" {
+			s.emit(fmt.Sprintf("YW %s => %s\n", name, res))
+			s.stats["wire_failed"]++
+			s.dead = true
+			return msgs, false
+		}
+		s.emit(fmt.Sprintf("YW %s %s\n", name, c03ReestFields(s, x, dec)))
+		s.stats["wire_reestablish"]++
+		if dec.RemoteCommitTailHeight == 0 {
+			s.stats["wire_reestablish_tail0"]++
+		}
+		if dec.NextLocalCommitHeight == 1 {
+			s.stats["wire_reestablish_fresh"]++
+		}
+		msgs[x] = dec
 	}
 	return msgs, true
 }
@@ -316,6 +563,8 @@ func (c *c03State) process(s *c01Sched, x int, msg *lnwire.ChannelReestablish) (
 	if res != "ok" {
 		s.dead = true
 	}
+	// the retransmissions go out on the new connection
+	c.wire(s)
 	return res
 }
 
@@ -334,7 +583,7 @@ func (c *c03State) cut(s *c01Sched, cu c03Cut) {
 					s.stats["crash_before_revoke"]++
 					continue
 				}
-				s.runAct(1-d, c01Act{Kind: "revoke"})
+				c.act(s, 1-d, c01Act{Kind: "revoke"})
 			}
 		}
 	}
@@ -416,7 +665,7 @@ func (c *c03State) drain(s *c01Sched, resolve bool) {
 			res := s.runDeliver(d)
 			progress = true
 			if kind == "commitsig" && res == "ok" {
-				s.runAct(1-d, c01Act{Kind: "revoke"})
+				c.act(s, 1-d, c01Act{Kind: "revoke"})
 			}
 		}
 		if s.dead {
@@ -428,14 +677,14 @@ func (c *c03State) drain(s *c01Sched, resolve bool) {
 		for x := 0; x < 2; x++ {
 			ch := s.p.Ch[x]
 			if ch.commitChains.Local.hasUnackedCommitment() {
-				s.runAct(x, c01Act{Kind: "revoke"})
+				c.act(s, x, c01Act{Kind: "revoke"})
 				progress = true
 			}
 		}
 		for x := 0; x < 2; x++ {
 			ch := s.p.Ch[x]
 			if ch.OweCommitment() && !ch.commitChains.Remote.hasUnackedCommitment() {
-				if s.runAct(x, c01Act{Kind: "sign"}) == "ok" {
+				if c.act(s, x, c01Act{Kind: "sign"}) == "ok" {
 					progress = true
 				}
 			}
@@ -443,7 +692,7 @@ func (c *c03State) drain(s *c01Sched, resolve bool) {
 		if !progress && resolve {
 			for x := 0; x < 2; x++ {
 				for _, idx := range s.settleable(x) {
-					s.runAct(x, c01Act{Kind: c01Pick(s.r, "settle", "fail"), Idx: idx})
+					c.act(s, x, c01Act{Kind: c01Pick(s.r, "settle", "fail"), Idx: idx})
 					progress = true
 				}
 			}
@@ -489,7 +738,7 @@ func c03RunCase(t *testing.T, pl c03Plan) *c03Result {
 	}
 	w := bufio.NewWriterSize(&res.buf, 1<<16)
 	s := &c01Sched{r: r, p: pair, w: w, stats: res.stats}
-	c := &c03State{}
+	c := &c03State{taproot: p.ChanType.IsTaproot()}
 	w.WriteString(c01CaseHeader(pl.id, pl.kind, p, pair))
 	fmt.Fprintf(w, "T tweakless=%d\n", c03b2i(p.ChanType.IsTweakless()))
 	s.dump(0)
@@ -501,6 +750,7 @@ func c03RunCase(t *testing.T, pl c03Plan) *c03Result {
 	stepOnce := func() bool {
 		ok := s.step(eager, pl.maxAdds)
 		c.noteSigs(pair)
+		c.wire(s)
 		return ok
 	}
 
@@ -531,6 +781,24 @@ func c03RunCase(t *testing.T, pl c03Plan) *c03Result {
 		more := 4 + s.r.Intn(14)
 		for i := 0; i < more && !s.dead; i++ {
 			if s.r.Intn(4) == 0 {
+				c.cut(s, c.randomCut(s))
+				continue
+			}
+			if !stepOnce() {
+				break
+			}
+		}
+
+	case "early":
+		// boundary class: reconnections of the fresh channel (height 0,
+		// nothing ever revoked: all-zero last secret, first commit point,
+		// first nonces) and during the very first dance, before and right
+		// after the first revoke_and_ack of either side
+		c.cut(s, c.randomCut(s))
+		for i := 0; i < steps && !s.dead; i++ {
+			early := pair.Ch[0].channelState.RemoteCommitment.CommitHeight == 0 ||
+				pair.Ch[1].channelState.RemoteCommitment.CommitHeight == 0
+			if (early && r.Intn(3) == 0) || (!early && r.Intn(8) == 0) {
 				c.cut(s, c.randomCut(s))
 				continue
 			}
@@ -592,8 +860,10 @@ func TestVerifC03(t *testing.T) {
 	defer w.Flush()
 
 	randPerKind, probesPerKind, maxSteps, maxAdds, probeSteps := 14, 2, 40, 6, 16
+	earlyPerKind := 3
 	if tier == "thorough" {
 		randPerKind, probesPerKind, maxSteps, maxAdds, probeSteps = 150, 12, 90, 10, 30
+		earlyPerKind = 25
 	}
 	if v, err := strconv.Atoi(os.Getenv("VERIF_C03_RAND")); err == nil && v >= 0 {
 		randPerKind = v
@@ -629,6 +899,11 @@ func TestVerifC03(t *testing.T) {
 			plans = append(plans, c03Plan{id: newID(), kind: "rand", ki: ki,
 				seed:     seed*1_000_003 + int64(ki)*10_007 + int64(c),
 				maxSteps: maxSteps, maxAdds: maxAdds, cutProb: 5 + c%6, cut: c03Cut{half: -1}})
+		}
+		for c := 0; c < earlyPerKind; c++ {
+			plans = append(plans, c03Plan{id: newID(), kind: "early", ki: ki,
+				seed:     seed*3_000_017 + int64(ki)*30_011 + int64(c),
+				maxSteps: 24, maxAdds: maxAdds, cut: c03Cut{half: -1}})
 		}
 		for c := 0; c < probesPerKind; c++ {
 			probes = append(probes, c03Plan{id: newID(), kind: "probe", ki: ki,
